@@ -5,7 +5,7 @@ import ast
 
 from ..census import census, snapshot_blocks
 from ..families import as_named, make_scfg
-from ..kernel import shard_map
+from ..kernel import guarded, shard_map
 from ..progs import all_target_programs, expr_programs, skeleton_sources, source_shapes
 from ..runner import Acc
 from ..sweep import exc_fingerprint, graph_case, graph_spec, rotate, sweep, staged
@@ -39,8 +39,8 @@ def check_program(label, src, acc: Acc):
     try:
         scfg = AST2SCFGTransformer(tree).transform_to_SCFG()
         snap = snapshot_blocks(scfg)
-        scfg.restructure()
-        fdef = SCFG2ASTTransformer().transform(original=tree[0], scfg=scfg)
+        guarded(scfg.restructure)
+        fdef = guarded(SCFG2ASTTransformer().transform, original=tree[0], scfg=scfg)
     except NotImplementedError:
         acc.counters["programs_refused"] += 1
         return
@@ -63,7 +63,7 @@ def check_graph(g, fam, acc: Acc, opts):
         scfg = make_scfg(g, payload)
         snap = snapshot_blocks(scfg)
         try:
-            scfg.restructure()
+            guarded(scfg.restructure)
         except Exception:  # noqa: BLE001
             acc.counters["graphs_restructure_raised(C02)"] += 1
             return
@@ -76,7 +76,7 @@ def check_graph(g, fam, acc: Acc, opts):
             seen.add(clause)
             acc.viol(PROP, f"{PROP}/{clause}", detail, (g, payload), site=payload, case=graph_case(g, fam, "JLB", payload=payload, kind="graph"))
         try:
-            fdef = SCFG2ASTTransformer().transform(original=orig, scfg=scfg)
+            fdef = guarded(SCFG2ASTTransformer().transform, original=orig, scfg=scfg)
         except NotImplementedError:
             acc.counters[f"graphs_refused[{payload}]"] += 1
             continue
